@@ -157,7 +157,8 @@ SMOKE = {
 SHARP = [
     "float:nan", "float:-0.0", "float:inf", "int:2^53+1", "int:1e400", "Decimal:NaN", "Decimal:1.5",
     "Fraction:1/3", "iter:[1,2]", "list:[nan]", "tuple:(a,b)", "str:ab",
-    "u:lt:bool", "u:lt+gt:bool", "u:lt+gt:raises", "u:eq:raises", "u:bool-raises", "u:len-only:2",
+    "u:lt:bool", "u:lt+gt:bool", "u:lt+gt:raises", "u:eq:raises", "u:lt+le+eq+ne+gt+ge:bool",
+    "u:bool-raises", "u:len-only:2",
     "u:contains-only", "u:iter-only",
 ]
 # pairs beyond (v, v), (v, 1), (1, v)
@@ -501,11 +502,17 @@ def program_family(source):
                 add("MATCH")
             elif n == "LOAD_FAST_AND_CLEAR":
                 add("COMPREHENSION")
+            elif n in ("BEFORE_WITH", "BEFORE_ASYNC_WITH"):
+                add("WITH")
+            elif n in ("BINARY_SLICE", "STORE_SLICE"):
+                add("SLICE")
             if n not in ("CACHE", "EXTENDED_ARG"):
                 prev = n
     if not fam:
         return "straight-line"
-    strs = [x for x in fam if x in _STR_FUNCS]
+    # distinctive features first: a deviation that is not attributed to a tracer callback is, in a small
+    # program, almost always about them
+    strs = [x for x in fam if x in _STR_FUNCS] or [x for x in fam if x in ("COMPREHENSION", "WITH", "SLICE")]
     if strs:
         return "+".join(strs)
     if len(fam) > 3:
@@ -811,6 +818,97 @@ def job_list(tier):
     return jobs, n_sampled
 
 
+def isolated(col, fn, args, crash_info):
+    """Run ``fn(sub_collector, *args, skip=..., progress=...)`` in a forked child and merge its collector.
+
+    A child killed by a signal (the instrumented code crashed the interpreter) is a violation
+    ``interpreter-crash:<signal>`` for the metric subset / input named by the child's progress marker;
+    the work item is then repeated without that subset and its supersets.  ``crash_info(tag, la, lb,
+    phase)`` -> (construct, value classes, description, data, rank) for the violation record."""
+    import faulthandler
+    import mmap
+    import pickle
+    import resource
+    import signal
+    import traceback
+
+    from mc.ctx import Collector
+
+    skip = set()
+    for _attempt in range(len(SUBSETS) + 1):
+        progress = mmap.mmap(-1, 512)
+        r, w = os.pipe()
+        sys.stdout.flush()
+        sys.stderr.flush()
+        pid = os.fork()
+        if pid == 0:
+            status = 0
+            try:
+                os.close(r)
+                faulthandler.disable()
+                resource.setrlimit(resource.RLIMIT_CORE, (0, 0))
+                sub = Collector()
+                try:
+                    fn(sub, *args, skip=frozenset(skip), progress=progress)
+                    payload = pickle.dumps(("ok", sub))
+                except BaseException:  # noqa: BLE001
+                    payload = pickle.dumps(("err", traceback.format_exc()))
+                with os.fdopen(w, "wb") as fh:
+                    fh.write(payload)
+            except BaseException:  # noqa: BLE001
+                status = 3
+            finally:
+                os._exit(status)
+        os.close(w)
+        with os.fdopen(r, "rb") as fh:
+            payload = fh.read()
+        _pid, status = os.waitpid(pid, 0)
+        if os.WIFEXITED(status) and os.WEXITSTATUS(status) == 0 and payload:
+            kind, obj = pickle.loads(payload)  # noqa: S301
+            if kind == "err":
+                raise RuntimeError("harness failure in isolated child:\n" + obj)
+            col.merge(obj)
+            return
+        if not os.WIFSIGNALED(status):
+            raise RuntimeError(f"isolated child ended with status {status} and no result")
+        signame = signal.Signals(os.WTERMSIG(status)).name
+        marker = bytes(progress[:]).rstrip(b"\0").decode("utf-8", "replace").split("|")
+        if len(marker) != 4 or marker[0] in skip:
+            raise RuntimeError(f"isolated child killed by {signame} outside an instrumented step: {marker}")
+        tag, la, lb, phase = marker
+        crashed = next(ss for ss in SUBSETS if subset_tag(ss) == tag)
+        construct, classes, what, data, rank = crash_info(tag, la, lb, phase)
+        lab = "+".join(crashed) if crashed else "seeding-only"
+        col.violation(f"C01|{lab}|{construct}|{classes}|interpreter-crash:{signame}",
+                      f"{what}: the interpreter died with {signame} during the instrumented {phase} "
+                      f"with {lab} metrics (+ dynamic seeding)", data, rank=rank)
+        col.count("interpreter_crashes")
+        skip |= {subset_tag(ss) for ss in SUBSETS if set(crashed) <= set(ss)}
+    raise RuntimeError("isolated child keeps crashing")
+
+
+def program_crash_info(name, source, meta):
+    def info(tag, la, lb, phase):
+        _pairs, uses_a, uses_b = input_pairs(meta, source)
+        if phase == "import":
+            classes, a, b = "-", None, None
+        else:
+            classes = f"{cls_of(la) if uses_a else '-'},{cls_of(lb) if uses_b else '-'}"
+            a, b = la, lb
+        data = {"kind": "program", "name": name, "source": source, "meta_constructs": meta.get("constructs", []),
+                "size": meta.get("size"), "a": a, "b": b}
+        return (program_family(source), classes, f"{name}: f({la}, {lb})\n{source}", data,
+                (meta.get("size") or 99) * 1000)
+    return info
+
+
+def stdlib_crash_info(modname):
+    def info(tag, la, lb, phase):
+        return (f"stdlib:{modname}", "-", f"stdlib module {modname} ({la})",
+                {"kind": "stdlib", "module": modname}, 10 ** 6)
+    return info
+
+
 # heavy stdlib modules first within a shard so that the tail is made of small programs
 def shard(col, tier, k, nshards):
     import shutil
@@ -828,7 +926,7 @@ def shard(col, tier, k, nshards):
             if i % nshards != k:
                 continue
             if job[0] == "stdlib":
-                check_stdlib(col, scratch, job[1])
+                isolated(col, check_stdlib, (scratch, job[1]), stdlib_crash_info(job[1]))
                 continue
             _kind, name, source, meta = job
             if first:
@@ -851,8 +949,9 @@ def shard(col, tier, k, nshards):
                     col.distinct("constructs_evidenced", t)
             for op in progen.opcodes(code):
                 col.distinct("opcodes", op)
-            check_program(col, scratch, name, source, meta,
-                          sample_every=97 if meta["kind"] == "grammar" else 13)
+            isolated(col, check_program, (scratch, name, source, meta, None,
+                                          97 if meta["kind"] == "grammar" else 13),
+                     program_crash_info(name, source, meta))
     finally:
         with contextlib.suppress(ValueError):
             sys.path.remove(scratch)
@@ -921,11 +1020,12 @@ def replay(ctx, data):
     sys.path.insert(0, scratch)
     try:
         if data.get("kind") == "stdlib":
-            check_stdlib(ctx.col, scratch, data["module"])
+            isolated(ctx.col, check_stdlib, (scratch, data["module"]), stdlib_crash_info(data["module"]))
         else:
             meta = {"constructs": data.get("meta_constructs", []), "size": data.get("size"), "kind": "replay"}
             pairs = None if data.get("a") is None else [(data["a"], data["b"])]
-            check_program(ctx.col, scratch, data["name"], data["source"], meta, pairs=pairs)
+            isolated(ctx.col, check_program, (scratch, data["name"], data["source"], meta, pairs, 0),
+                     program_crash_info(data["name"], data["source"], meta))
     finally:
         with contextlib.suppress(ValueError):
             sys.path.remove(scratch)
